@@ -655,9 +655,42 @@ def run(ctx):
 
 def replay(ctx, path):
     d = json.load(open(path))
-    r = d["replay"]["retries"]
-    pat = d["replay"]["history"]
-    trace, done = vloop.run(drive, r, pat)
-    errs = oracle(r, pat, trace, done)
-    print("retries=%d history=%s impl_trace=%s returned=%s property-errors=%s" % (r, pat, trace, done, errs))
+    rp = d.get("replay") or {}
+    from pyatv.core.protocol import HEARTBEAT_RETRIES
+    site = rp.get("site")
+    if site is None and "history" in rp and "retries" in rp:
+        r, pat = rp["retries"], rp["history"]
+        trace, done = vloop.run(drive, r, pat)
+        errs = oracle(r, pat, trace, done)
+        print("retries=%d history=%s impl_trace=%s returned=%s property-errors=%s" % (r, pat, trace, done, errs))
+        return 1 if errs else 0
+    r = HEARTBEAT_RETRIES
+    if site == "mrp":
+        trace = vloop.run(drive_mrp, rp["device"], rp.get("abandoned_request_before"))
+        hist = rp["device"]
+    elif site == "mrp-stop":
+        trace = vloop.run(drive_mrp, rp["device"], None, True)
+        print("device=%s trace=%s" % (rp["device"], trace))
+        return 1 if ("SendAfterStop" in trace or "FailureAfterStop" in trace) else 0
+    elif site == "ap2":
+        trace, done = vloop.run(drive_ap2, rp["history"])
+        errs = oracle(r, rp["history"], trace, done)
+        print("history=%s trace=%s errors=%s" % (rp["history"], trace, errs))
+        return 1 if errs else 0
+    elif site == "ap2-deep":
+        trace = vloop.run(drive_ap2_deep, rp["device"])
+        hist = rp["device"].replace("E", "F")
+    elif site == "mrp-deep":
+        trace, reports, closed = vloop.run(drive_mrp_deep, rp["device"])
+        hist = rp["device"]
+        print("listener reports:", reports)
+        if len(reports) != 1:
+            return 1
+    else:
+        print(json.dumps(d, indent=1)[:3000])
+        return 1
+    errs = [e for e in oracle(r, hist, [t for t in trace if t != "ActivityAfterFailure"], True) if e != "finish-not-once-on-cancel"]
+    if "ActivityAfterFailure" in trace:
+        errs.append("activity-after-failure")
+    print("device=%s trace=%s property-errors=%s" % (rp.get("device"), trace, errs))
     return 1 if errs else 0
